@@ -358,7 +358,183 @@ def rule_d(ctx, out):
         raise AnalysisError(f"only {n_dir} order-tuple insertions/guards found")
 
 
+ENC_PKG = "smt_encoding.complete_encoding"
+# range(...) stops that combine several bounds; each read in the source
+RANGE_TRIAGED = {
+    "dependent_pre_order:min(b0-1,bounds.upper_bound_theta_value(bef_instr_theta),bounds.upper_bound_theta_value(aft_instr_theta)+1)":
+        "load-before-store family: positions j >= ub(load) have no later load position, the conjunction is empty (true), nothing to emit; "
+        "the store's own term is ub(store)+1",
+}
+
+
+def _ub_term(e):
+    """(theta text, k) if e is  X.upper_bound_theta_value(theta) [+ k | k +]   else None"""
+    k = 0
+    if isinstance(e, ast.BinOp) and isinstance(e.op, (ast.Add, ast.Sub)):
+        a, b = e.left, e.right
+        if isinstance(b, ast.Constant) and isinstance(b.value, int):
+            k = b.value if isinstance(e.op, ast.Add) else -b.value
+            e = a
+        elif isinstance(a, ast.Constant) and isinstance(a.value, int) and isinstance(e.op, ast.Add):
+            k = a.value
+            e = b
+    if isinstance(e, ast.Call) and isinstance(e.func, ast.Attribute) and e.func.attr == "upper_bound_theta_value" and len(e.args) == 1:
+        return norm(e.args[0]), k
+    return None
+
+
+def _lb_theta(e):
+    if isinstance(e, ast.Call) and isinstance(e.func, ast.Attribute) and e.func.attr == "lower_bound_theta_value" and len(e.args) == 1:
+        return norm(e.args[0])
+    return None
+
+
+def _max_offset(body_nodes, var):
+    """largest constant c with which `var + c` occurs in the given nodes (0 if var occurs bare), None if var does not occur"""
+    best = None
+    for b in body_nodes:
+        for n in ast.walk(b):
+            if isinstance(n, ast.Name) and n.id == var and isinstance(n.ctx, ast.Load):
+                c = 0
+                p = getattr(n, "_parent", None)
+                if isinstance(p, ast.BinOp) and isinstance(p.op, (ast.Add, ast.Sub)):
+                    other = p.right if p.left is n else p.left
+                    if isinstance(other, ast.Constant) and isinstance(other.value, int):
+                        c = other.value if isinstance(p.op, ast.Add) else (-other.value if p.left is n else 0)
+                best = c if best is None else max(best, c)
+    return best
+
+
+def _range_loops(f):
+    """(loop variable, range call, body nodes) for `for v in range(..)` statements and comprehension generators of f"""
+    for n in own_nodes(f.node):
+        if isinstance(n, ast.For) and isinstance(n.target, ast.Name) and isinstance(n.iter, ast.Call) and call_name(n.iter) == "range":
+            yield n.target.id, n.iter, n.body
+        elif isinstance(n, (ast.ListComp, ast.GeneratorExp, ast.SetComp)):
+            for gi, g in enumerate(n.generators):
+                if isinstance(g.target, ast.Name) and isinstance(g.iter, ast.Call) and call_name(g.iter) == "range":
+                    yield g.target.id, g.iter, [n.elt] + [x for h in n.generators[gi + 1:] for x in [h.iter] + h.ifs] + g.ifs
+
+
+def rule_e(ctx, out):
+    """Position families of the hard constraints cover every position the instruction may take.
+    (U) bounds are inclusive: a family `for j in range(lo, ub(theta) + k)` whose body mentions position j + c must reach ub(theta):
+        k + c = 1.  A family that stops one short emits no constraint for the last position, and the solver is free there.
+    (L) an existential order constraint  t_j = theta2 -> OR_{i<j} t_i = theta1  is needed at *every* position theta2 may take: the
+        family starts at lb(theta2);
+    (E) and where the disjunction is empty the constraint is "t_j != theta2", not "no constraint" (an empty OR is false)."""
+    roots = [f for f in ctx.p.functions.values() if f.module.name == f"{ENC_PKG}.synthesis_full_encoding" and f.cls is not None]
+    if not roots:
+        raise AnalysisError("FullEncoding methods not found")
+    reach = ctx.r.reachable(roots, by_name=True)
+    fs = [f for q, f in sorted(reach.items()) if f.module.name.startswith(ENC_PKG)]
+    n_u = 0
+    for f in fs:
+        for var, rng, body in _range_loops(f):
+            if not rng.args:
+                continue
+            stop = rng.args[1] if len(rng.args) >= 2 else rng.args[0]
+            t = _ub_term(stop)
+            if t is None:
+                if any(_ub_term(x) for x in ast.walk(stop)):
+                    key = f"{f.name}:{norm(stop).replace(' ', '')}"
+                    n_u += 1
+                    if key in RANGE_TRIAGED:
+                        out.unproven.append({"site": key, "reason": RANGE_TRIAGED[key]})
+                        out.ok()
+                    else:
+                        out.bad(f"position-family-stop-not-recognised:{key}", f"{f.name}: the family `{short(rng, 90)}` combines upper bounds in a way that "
+                                f"is not in the triaged list; read it and record why it reaches the last position", where(f, rng))
+                continue
+            theta, k = t
+            c = _max_offset(body, var)
+            if c is None:
+                continue
+            n_u += 1
+            if k + c == 1:
+                out.ok({"function": f.name, "family": short(rng, 80), "last_position_mentioned": f"ub({theta})"})
+            else:
+                out.bad(f"position-family-misses-upper-bound:{f.name}:{theta}:{k + c - 1:+d}", f"{f.name}: the family `for {var} in {short(rng, 90)}` mentions "
+                        f"positions up to ub({theta}){k + c - 1:+d}; bounds are inclusive, so position ub({theta}) gets no constraint", where(f, rng))
+    if n_u < 12:
+        raise AnalysisError(f"only {n_u} position families over upper bounds found")
+    # existential families
+    n_e = 0
+    for f in fs:
+        imps = [c for c in calls_in(f.node, "add_implies") if len(c.args) == 2]
+        for imp in imps:
+            cons = imp.args[1]
+            lists = single_assignments_of(f, cons)
+            ors = [c for e in [cons] + lists for c in ([e] if isinstance(e, ast.Call) else []) if call_name(c) == "add_or" and c.args and isinstance(c.args[0], ast.Starred)]
+            if not ors:
+                continue
+            lst = ors[0].args[0].value
+            if not isinstance(lst, ast.Name):
+                continue
+            # (E)
+            guards = [n for n in own_nodes(f.node) if isinstance(n, ast.If) and lst.id in norm(n.test) and ("==[]" in norm(n.test).replace(" ", "") or norm(n.test).replace(" ", "") in (f"not{lst.id}", f"len({lst.id})==0"))]
+            if not guards:
+                continue
+            n_e += 1
+            g = guards[0]
+            ret = [x for x in g.body if isinstance(x, ast.Return)]
+            drops = bool(ret) and (ret[0].value is None or (isinstance(ret[0].value, ast.Constant) and ret[0].value.value is None))
+            if drops:
+                out.bad(f"empty-disjunction-dropped:{f.name}", f"{f.name}: when `{lst.id}` is empty the function returns no constraint; the implication it stands "
+                        f"for has an empty (false) disjunction as consequent, i.e. the antecedent must be excluded", where(f, g))
+            else:
+                out.ok({"function": f.name, "empty_disjunction": short(ret[0].value, 70) if ret else "handled"})
+            # (L) call sites
+            ant = imp.args[0]
+            ant_src = single_assignments_of(f, ant)
+            theta2 = None
+            for e in [ant] + ant_src:
+                for c in ast.walk(e):
+                    if isinstance(c, ast.Call) and isinstance(c.func, ast.Attribute) and c.func.attr == "theta_value" and c.args and isinstance(c.args[0], ast.Name) \
+                            and c.args[0].id in f.params:
+                        theta2 = c.args[0].id
+            if theta2 is None:
+                raise AnalysisError(f"{f.name}: subject of the antecedent not recognised")
+            pos_t2, pos_j = f.params.index(theta2), 0
+            for g2 in fs:
+                for var, rng, body in _range_loops(g2):
+                    for b in body:
+                        for c in calls_in(b, f.name):
+                            if len(c.args) <= pos_t2 or not is_name(c.args[pos_j], var):
+                                continue
+                            n_e += 1
+                            th = norm(c.args[pos_t2])
+                            # a family generated per stack operand only repeats what the stack encoding enforces: the consumer needs the
+                            # producer's output term on the stack, which is not there before the producer ran
+                            anc, via_stack = getattr(c, "_parent", None), False
+                            while anc is not None and anc is not g2.node:
+                                if isinstance(anc, ast.For) and isinstance(anc.iter, ast.Attribute) and anc.iter.attr == "input_stack":
+                                    via_stack = True
+                                anc = getattr(anc, "_parent", None)
+                            if via_stack:
+                                out.ok({"function": g2.name, "family": short(rng, 70), "note": "producer/consumer order, also enforced by the stack encoding"})
+                                continue
+                            start = rng.args[0] if len(rng.args) >= 2 else None
+                            ok = start is not None and (_lb_theta(start) == th or (isinstance(start, ast.Call) and call_name(start) == "min" and any(_lb_theta(a) == th for a in start.args)))
+                            if ok:
+                                out.ok({"function": g2.name, "family": short(rng, 70), "starts_at": f"lb({th})"})
+                            else:
+                                out.bad(f"existential-family-skips-low-positions:{g2.name}:{th}", f"{g2.name}: `{short(c, 60)}` is generated for positions from "
+                                        f"`{short(start, 70) if start is not None else 0}`, not from lb({th}): at a lower position {th} may be placed with no constraint "
+                                        f"requiring its predecessor", where(g2, rng))
+    if n_e < 3:
+        raise AnalysisError(f"only {n_e} existential-family instances found")
+
+
+def single_assignments_of(f, e):
+    from ..core.flow import single_assignments
+    if isinstance(e, ast.Name):
+        return [v for (_, v, idx) in single_assignments(f.node).get(e.id, []) if idx is None]
+    return []
+
+
 RULES = [
+    ("C06.e", "position families cover every admissible position", 15, rule_e),
     ("C06.d", "happens-before map under-approximates the dependency graph", 7, rule_d),
     ("C06.a", "every SMT symbol is declared", 10, rule_a),
     ("C06.b", "encoder dispatch exhaustive; registered keywords match signatures", 20, rule_b),
